@@ -12,7 +12,15 @@ def main():
     from . import runner, env, cover
     env.setup(job['spec'])
     chk = runner.load_check(job['prop'])
+    try:
+        # die with the runner: an interrupted run must not leave workers behind
+        import ctypes
+        import signal
+        ctypes.CDLL(None).prctl(1, signal.SIGKILL)      # PR_SET_PDEATHSIG
+    except Exception:
+        pass
     ctx = runner.Ctx(job['prop'], job['tier'], job['seed'], job['spec'])
+    ctx.hb_fd = os.open(out_path + '.hb', os.O_RDWR | os.O_CREAT | os.O_TRUNC, 0o600)
     cov = cover.Cover(env.REPO)
     cov.start()
     try:
